@@ -215,6 +215,16 @@ def norm_gadget(g):
                 v = 0
         ch.append([c, v])
     g2["chain"] = ch
+    # irrelevant for a gadget rendered alone: which name of the pool is used; the import style without a second file
+    g2["src_idx"] = g2["snk_idx"] = 0
+    if not any(f != 0 for f in g2["layout"]):
+        g2["imp"] = "from"
+        g2["layout"] = [0]
+    helper_levels = sum(1 for c, v in ch if c in ("param", "ret", "field") or (c == "global" and v == 2)
+                        or (c == "broken" and v in ("unrelated-field", "unrelated-object", "callee-drops", "callee-other-param")))
+    if helper_levels == 0:
+        g2["imp"] = "from"
+        g2["layout"] = [0]
     return g2
 
 
